@@ -16,7 +16,8 @@ KINDS = ["turtle_langevin", "ase_vv", "ase_langevin", "lammps", "cp2k", "gromacs
 
 def gen(rng):
     return {"engine": rng.choice(KINDS), "eng_seed": rng.randrange(1 << 30), "zero_momentum": rng.random() < 0.5,
-            "maxlen": rng.choice([3, 6, 12]), "reverse": rng.random() < 0.3}
+            "maxlen": rng.choice([3, 6, 12]), "reverse": rng.random() < 0.3,
+            "settings_seed": rng.choice([None, 70])}
 
 
 def run_engine_case(case):
@@ -69,7 +70,8 @@ def run_engine_case(case):
             if hasattr(EB.counter, "count"):
                 del EB.counter.count
             if kind.startswith("turtle"):
-                eng, wconf, _, _ = E.build_turtle(scratch, "LangevinInertia", scn["eng_seed"])
+                eng, wconf, _, _ = E.build_turtle(scratch, "LangevinInertia", scn["eng_seed"],
+                                                  settings_seed=scn.get("settings_seed"))
                 conf, x0, v0, w = os.path.join(scratch, "s.xyz"), -0.9, 0.2, 0.3
                 real_integ = eng.integrator
                 real_init = real_integ.__init__
